@@ -139,6 +139,9 @@ func (r *Run) Finish() int {
 	r.mu.Lock()
 	defer r.mu.Unlock()
 	if _, ok := r.Cov["samples"]; !ok {
+		if r.samples == nil {
+			r.samples = []any{} // never null: the schema wants a list
+		}
 		r.Cov["samples"] = r.samples
 	}
 	e := Evidence{PropertyID: r.ID, Tier: r.Tier, Seed: r.Seed, Level: r.Level, Coverage: r.Cov,
